@@ -59,6 +59,11 @@ func leafKid(m string) []Node { return []Node{{Kind: "plain", M: m + "k"}} }
 
 // place wraps the sibling list body into the placement and attaches the data.
 func place(placement string, body []Node, vars map[string]vals.V, next map[string]vals.V) Case {
+	if i := strings.IndexByte(placement, '+'); i >= 0 {
+		c := place(placement[:i], body, vars, next)
+		c.Form = placement[i+1:]
+		return c
+	}
 	if strings.HasPrefix(placement, "top:") {
 		return Case{Nodes: body, Vars: vars, Form: placement[4:]}
 	}
@@ -98,7 +103,7 @@ func place(placement string, body []Node, vars map[string]vals.V, next map[strin
 }
 
 func refFor(placement string) func(string) string {
-	if placement == "loop" || strings.HasPrefix(placement, "loop:") {
+	if placement == "loop" || strings.HasPrefix(placement, "loop:") || strings.HasPrefix(placement, "loop+") {
 		return func(v string) string { return "it1." + v }
 	}
 	return func(v string) string { return v }
@@ -145,7 +150,9 @@ func enumShapes(full bool, yield func(Case) bool) {
 	// members, siblings on both sides)
 	placements := []string{"top", "div", "loop",
 		"top:hyphen", "top:dotidx", "top:bracket", "top:nested", "top:tag", "top:goname",
-		"loop:struct", "loop:ptr", "vloop"}
+		"loop:struct", "loop:ptr", "vloop",
+		// variables named like default template functions; booleans written as comparisons
+		"top+funcname", "vloop+funcname", "top+cmp-seq", "top+cmp-sne", "top+cmp-eq", "top+cmp-ne", "loop+cmp-sne", "loop+cmp-seq"}
 	for nElif := 0; nElif <= 3; nElif++ {
 		for _, hasElse := range []bool{false, true} {
 			spec := chainSpec{nElif: nElif, hasElse: hasElse, prefix: "m", vars: condNames[:4]}
@@ -157,7 +164,7 @@ func enumShapes(full bool, yield func(Case) bool) {
 				next := spec.values((assign + 1) % total)
 				for _, pl := range placements {
 					ref := refFor(pl)
-					extra := pl == "vloop" || strings.Contains(pl, ":")
+					extra := pl == "vloop" || strings.ContainsAny(pl, ":+")
 					for _, sep := range sepKinds {
 						if extra && !full && (sep == "w" || sep == "c") {
 							continue // quick tier: two separators for the operand-form placements
@@ -224,6 +231,10 @@ func enumShapes(full bool, yield func(Case) bool) {
 								body = append(body, ms...)
 								if sib&2 != 0 {
 									body = append(body, plain("s1", sep), plain("s2", sep))
+								}
+								if extra {
+									// the other consumers of truthiness read the first operand in the same form
+									body = append(body, Node{Kind: "probe", M: "q", Cond: ref(spec.vars[0]), Sep: sep})
 								}
 								if !emit(place(pl, body, v, nx)) {
 									return
@@ -504,6 +515,7 @@ type nestGen struct {
 	next     int
 	maxDepth int
 	inSlot   bool
+	bools    bool     // comparison forms: every condition variable is a defined bool, no undefined names
 	plain    bool     // globals are written as plain names: vloops may shadow them
 	vlists   []string // vloop lists used
 }
@@ -516,7 +528,7 @@ func (g *nestGen) marker() string {
 func (g *nestGen) sep() string { return rapid.SampledFrom(sepKinds).Draw(g.t, "sep") }
 
 func (g *nestGen) cond(loopVars []string) string {
-	if rapid.IntRange(0, 7).Draw(g.t, "prop") == 0 {
+	if rapid.IntRange(0, 7).Draw(g.t, "prop") == 0 && !g.bools {
 		// the name of a component prop: undefined wherever the page evaluates it
 		return fmt.Sprintf("p%d", rapid.IntRange(0, 11).Draw(g.t, "pk"))
 	}
@@ -666,8 +678,12 @@ func hasChain(nodes []Node) bool {
 	return false
 }
 
+// boolsOnly is set while a case with a comparison form is being drawn (rapid runs one case at
+// a time per process): every condition variable is then a defined bool.
+var boolsOnly bool
+
 func genCondValue(t *rapid.T, label string) vals.V {
-	if rapid.IntRange(0, 9).Draw(t, label+"b") < 5 {
+	if boolsOnly || rapid.IntRange(0, 9).Draw(t, label+"b") < 5 {
 		return vals.Bool(rapid.Bool().Draw(t, label))
 	}
 	return condValues[rapid.IntRange(0, len(condValues)-1).Draw(t, label+"v")]
@@ -678,9 +694,17 @@ func genNest(rec *ev.Rec, open map[string]bool) func(*rapid.T) Case {
 	return func(t *rapid.T) Case {
 		g := &nestGen{t: t, maxDepth: rapid.IntRange(2, 4).Draw(t, "maxdepth")}
 		c := Case{Vars: map[string]vals.V{}, Lists: map[string][]map[string]vals.V{}}
-		c.Form = rapid.SampledFrom([]string{"", "", "", "", "hyphen", "dotidx", "bracket", "nested", "tag", "goname"}).Draw(t, "form")
+		c.Form = rapid.SampledFrom([]string{"", "", "", "", "hyphen", "dotidx", "bracket", "nested", "tag", "goname",
+			"funcname", "funcname", "cmp-seq", "cmp-sne", "cmp-eq", "cmp-ne"}).Draw(t, "form")
+		g.bools = isCmp(c.Form)
+		boolsOnly = g.bools
 		c.Items = rapid.SampledFrom([]string{"", "", "struct", "ptr"}).Draw(t, "items")
-		g.plain = c.Form == ""
+		if isCmp(c.Form) {
+			// comparisons whose operand is a struct field read by its JSON tag are not generated here
+			// (the expression library does not see tags of nested structs: C13 / C17's subject)
+			c.Items = ""
+		}
+		g.plain = c.Form == "" || c.Form == "funcname"
 		c.Nodes = g.siblings(0, nil, 1, 4)
 		if len(g.vlists) > 0 {
 			c.VLists = map[string][]vals.V{}
@@ -765,7 +789,7 @@ func genNest(rec *ev.Rec, open map[string]bool) func(*rapid.T) Case {
 
 // ---------------------------------------------------------------- family B (rapid)
 
-var oddStrings = []string{"", " ", "  ", "0", "00", "0.0", "-0", "0x0", "1", "-1", "1e3", "x", "no", "off", "nil", "null",
+var oddStrings = []string{"False", "FALSE", "fAlSe", " false", "false ", "TRUE", "", " ", "  ", "0", "00", "0.0", "-0", "0x0", "1", "-1", "1e3", "x", "no", "off", "nil", "null",
 	"true", "false", "True", "FALSE", " x ", "0 ", " 1", "a b", "k", "undefined", "NaN", "[]", "{}"}
 
 func genAnyValue(t *rapid.T, depth int) vals.V {
@@ -817,7 +841,8 @@ func genValue(rec *ev.Rec, open map[string]bool) func(*rapid.T) TruthCase {
 		c := TruthCase{Val: genAnyValue(t, 0)}
 		// the positions on the plain name plus all positions of one operand form (the table runs
 		// every form for its fixed values)
-		f1 := forms[rapid.IntRange(0, len(forms)-1).Draw(t, "form1")].name + " / "
+		fs := allForms()
+		f1 := fs[rapid.IntRange(0, len(fs)-1).Draw(t, "form1")].name + " / "
 		f2 := f1
 		ex := excludedPositions(c.Val, open)
 		for i, p := range positionNames() {
